@@ -250,10 +250,62 @@ def resample_after_extend(G, ctx):
             ctx.count("resample-after-extend:" + method)
 
 
+def large_counts(G, ctx):
+    """particle counts far beyond the exhaustive model comparison (N <= 9): for EVERY N in a contiguous range plus powers of two and
+    round numbers, systematic and categorical index selection returns exactly N ancestors; systematic obeys the floor/ceil bound of
+    `C12_systematic_counts` and is non-decreasing (float-step ranges, index dtypes and off-by-one pointer counts only show at
+    particular N)."""
+    import jax.numpy as jnp
+    import jax.random as jr
+    smc = __import__("genjax.inference.smc", fromlist=["x"])
+    Ns = list(range(10, 131 if not ctx.thorough else 261)) + [196, 197, 206, 214, 256, 300, 500, 512, 1000, 1024]
+    rng = np.random.default_rng(ctx.seed + 5)
+    for N in Ns:
+        w = rng.choice([1.0, 1.0, 2.0, 3.0, 0.5], size=N)
+        w = w / w.sum()
+        lw = jnp.asarray(np.log(w), dtype=jnp.float32)
+        for method, fn in (("systematic", smc.systematic_resample),):
+            case = {"kind": "large-count", "N": N, "method": method}
+            try:
+                idx = np.asarray(G.seed(lambda l, fn=fn, N=N: fn(l, N))(jr.key(ctx.seed * 7 + N), lw))
+            except Exception as ex:
+                impl.reset_handlers()
+                ctx.property_failure(None, f"{method} index selection with N = {N} raised {type(ex).__name__}: {str(ex)[:140]}", case)
+                continue
+            if idx.shape != (N,):
+                ctx.property_failure(None, f"{method} index selection with N = {N} returns {idx.shape[0] if idx.ndim else 'a scalar'} ancestors instead of {N}", {**case, "returned": list(idx.shape)})
+                continue
+            counts = np.bincount(idx, minlength=N)
+            lo, hi = np.floor(N * w - 1e-4), np.ceil(N * w + 1e-4)
+            if idx.min() < 0 or idx.max() >= N or np.any(counts < lo) or np.any(counts > hi) or np.any(np.diff(idx) < 0):
+                bad = int(np.argmax((counts < lo) | (counts > hi)))
+                ctx.property_failure(None, f"systematic resampling with N = {N}: particle {bad} with N*w = {N * w[bad]:.3f} got {int(counts[bad])} copies (floor/ceil bound), or the ancestors are not ordered", {**case, "particle": bad})
+            ctx.case(nontrivial_key=("large-count", N, method))
+            ctx.count("large-count")
+    # the public resample on a collection: N + 1 traces for N weights would go unnoticed by weight-only checks
+    for N in (49, 98, 100):
+        for method in ("systematic", "categorical"):
+            case = {"kind": "large-count-collection", "N": N, "method": method}
+            try:
+                from genjax.inference.smc import resample
+                p = make_particles(G, N, [Fr(1 + (i % 3)) for i in range(N)], jr.key(5))
+                q = G.seed(lambda pp, method=method: resample(pp, method=method))(jr.key(6), p)
+                import jax
+                sizes = {int(np.shape(l)[0]) for l in jax.tree_util.tree_leaves((q.traces.get_choices(), q.log_weights)) if np.ndim(l) >= 1}
+                if sizes != {N}:
+                    ctx.property_failure(None, f"resample({method}) of {N} particles returns leaves with leading sizes {sorted(sizes)}", {**case, "sizes": sorted(sizes)})
+            except Exception as ex:
+                impl.reset_handlers()
+                ctx.property_failure(None, f"resample({method}) of {N} particles raised {type(ex).__name__}: {str(ex)[:140]}", case)
+            ctx.case(nontrivial_key=("large-count-collection", N, method))
+            ctx.count("large-count-collection")
+
+
 def run(ctx, audit):
     G = impl.load()
     resample_after_extend(G, ctx)
     all_impossible(G, ctx)
+    large_counts(G, ctx)
     # log weights of large common magnitude (long observation sequences): relative tolerances on RAW log weights must not matter
     kk = ctx.seed * 1000 + 500
     for off in (-1.0e5, -2.0e6):
